@@ -251,6 +251,18 @@ def check_upload(res, sc, drv, program_arg, keyp=""):
     return js
 
 
+class Enough(Exception):
+    """the same non-termination has been witnessed several times (each witness costs a whole step budget): the verdict is in"""
+
+
+def note_budget(res, st):
+    if st == "budget":
+        res.count("uploads-that-did-not-terminate")
+        if res.counters.get("uploads-that-did-not-terminate", 0) >= 3:
+            res.count("stopped-early-after-repeated-nontermination")
+            raise Enough()
+
+
 def run(ctx):
     res = common.Result("C05")
     rng = ctx.rng()
@@ -299,7 +311,10 @@ def run(ctx):
                 res.ev()
                 res.violation("open-failed", f"LogixDriver.open() against a conforming controller ({sc.label}, pages {sc.dev.page_mode}, template fragments {sc.dev.tmpl_frag}) -> {sc.opened!r:.300}",
                               {"config": sc.label, "log": [v[:3] for v in sc.b.log.violations[:3]]})
+                stuck_ = sc.opened is not None and sc.opened[0] == "budget"
                 sc.close()
+                if stuck_:
+                    note_budget(res, "budget")
                 continue
             js0 = check_upload(res, sc, sc.drv, "*" if ipt else None)
             # ---- two controllers in one process: a second driver uploads ANOTHER controller's project (types of the same names laid out
@@ -327,6 +342,7 @@ def run(ctx):
                 sc.dev.page_mode = rng.choice(["all", 1, 2, 3, "random"])
                 sc.dev.tmpl_frag = rng.choice(["all", "random", 1, 2, 3, 5, 8])
                 st, out = sc.b.call("get_tag_list", sc.drv.get_tag_list, "*" if ipt else None)
+                note_budget(res, st)
                 res.count("uploads")
                 if st != "ok":
                     res.ev()
@@ -348,8 +364,10 @@ def run(ctx):
                     if how == "reopen":
                         sc.b.call("close", sc.drv.close)
                         st, out = sc.b.call("open", sc.drv.open)
+                        note_budget(res, st)
                     else:
                         st, out = sc.b.call("get_tag_list", sc.drv.get_tag_list, "*" if ipt else None)
+                        note_budget(res, st)
                     res.count(f"re-upload-after-edit:{how}")
                     if st != "ok":
                         res.ev()
@@ -380,6 +398,7 @@ def run(ctx):
                 pn = rng.choice(sorted(sc.prj.programs))
                 full = sc.drv.tags
                 st, out = sc.b.call("get_tag_list", sc.drv.get_tag_list, pn, False)
+                note_budget(res, st)
                 res.ev()
                 if st != "ok":
                     res.violation("get_tag_list-raises", f"get_tag_list({pn!r}, cache=False) raised {out!r:.200}", {"config": sc.label})
@@ -393,4 +412,6 @@ def run(ctx):
             sc.close()
         except ScenarioDead:
             continue
+        except Enough:
+            return res
     return res
